@@ -73,6 +73,7 @@ def labelOf? (j : Json) : Option Label := do
   | [.str "deliverStale", i, v, vv] => some (.deliverStale (← jStr? i) (← statusOfRecs? v) (← jNat? vv))
   | [.str "exit", i] => some (.exit (← jStr? i))
   | [.str "exitBegin", i] => some (.exitBegin (← jStr? i))
+  | [.str "keepaliveFail", i, .bool w] => some (.keepaliveFail (← jStr? i) w)
   | [.str "exitEnd", i] => some (.exitEnd (← jStr? i))
   | [.str "kill", i] => some (.kill (← jStr? i))
   | [.str "deliver", i] => some (.deliver (← jStr? i))
